@@ -361,11 +361,16 @@ func c09AfterHelpers(elems int, dotu bool, P int) Scenario {
 // c09AfterNonblocking: the public non-blocking path (ReqAlloc, Rpcnb, a completion
 // channel the caller shares between its requests, ReqFree) recycles request slots too.
 // After it, concurrent blocking calls still get their own replies.
-func c09AfterNonblocking(n int, dotu bool, P int) Scenario {
+func c09AfterNonblocking(n int, dotu bool, P int) Scenario { return c09AfterAsync(n, false, dotu, P) }
+
+func c09AfterAsync(n int, viaTag, dotu bool, P int) Scenario {
 	var peer *Peer
 	var res []*callRes
 	var setupErr string
 	name := fmt.Sprintf("calls-after-nonblocking-requests n=%d dotu=%v", n, dotu)
+	if viaTag {
+		name = fmt.Sprintf("calls-after-nonblocking-requests-and-a-Tag-pipeline n=%d dotu=%v", n, dotu)
+	}
 	body := func() {
 		setupErr = ""
 		c, pr := newClientPair(8192, dotu)
@@ -394,6 +399,20 @@ func c09AfterNonblocking(n int, dotu bool, P int) Scenario {
 		}
 		for _, r := range rs {
 			c.ReqFree(r)
+		}
+		if viaTag {
+			// ... and the pipelined Tag interface, each completion released with Tag.ReqFree
+			rc := make(chan *go9p.Req, n)
+			tg := c.TagAlloc(rc)
+			for i := 0; i < n; i++ {
+				if err := tg.Read(mkFid(c, uint32(250+i)), uint64(i), 8); err != nil {
+					setupErr = "Tag.Read: " + err.Error()
+					return
+				}
+			}
+			for i := 0; i < n; i++ {
+				tg.ReqFree(vs.Recv(rc))
+			}
 		}
 		peer.Seen = nil
 		peer.Batch = 3
@@ -679,7 +698,7 @@ func c09Scenarios(tier string) []Scenario {
 	}
 	out = append(out, c09TwoClients(false, true, 1), c09TwoClients(true, false, 1))
 	out = append(out, c09AfterHelpers(3, true, 1), c09AfterHelpers(17, false, 1), c09AfterHelpers(40, true, 1))
-	out = append(out, c09AfterNonblocking(1, false, 1), c09AfterNonblocking(3, true, 1))
+	out = append(out, c09AfterNonblocking(1, false, 1), c09AfterNonblocking(3, true, 1), c09AfterAsync(3, true, false, 1), c09AfterAsync(20, true, true, 1))
 	// two calls per caller (request slots and Fcalls recycled between calls)
 	out = append(out, c09Scenario(c09Params{Calls: [][]callSpec{{{"read", 10}, {"stat", 11}}, {{"write", 20}, {"read", 21}}}, Kinds: []string{"ok", "error", "ok", "ok"}, Order: []int{1, 0}, Dotu: true, P: P}))
 	out = append(out, c09Scenario(c09Params{Calls: [][]callSpec{{{"read", 10}, {"read", 11}}, {{"read", 20}}}, Kinds: nil, Order: []int{0, 1}, OneWrite: true, P: P}))
